@@ -21,6 +21,7 @@ NEGATIVE = [
     ("SimpleDBDisk.tla", "NEG_Disk_walorder.cfg", "recovery unlinks WAL files in any order (S12)"),
     ("SimpleDBDisk.tla", "NEG_Disk_renamefirst.cfg", "recovery renames the merged table before all inputs are gone (repaired by 42e1cd1)"),
     ("SimpleDBDisk.tla", "NEG_Disk_asyncrotate.cfg", "asynchronous WAL: rotation drops the buffered appends"),
+    ("SimpleDBDisk.tla", "NEG_Disk_rotateinflight.cfg", "a mutation rotates between its log append and its memstore update (seeded C02-4, C13-8)"),
     ("RefineKV.tla", "NEG_RefineKV_buffered.cfg", "refinement to the atomic map fails for the buffered hand-off"),
     ("Resources.tla", "NEG_Resources_release.cfg", "Close releases tables before the compactor is joined"),
     ("SimpleDBApi.tla", "NEG_SimpleDBApi.cfg", "PutBytes logs before validating (S5)"),
